@@ -183,6 +183,55 @@ def cleanup_program(fn):
     return out
 
 
+def guard_terms(t):
+    """the disjuncts of the condition under which enqueue raises WorkerClosedError"""
+    if isinstance(t, ast.BoolOp) and isinstance(t.op, ast.Or):
+        return [x for v in t.values for x in guard_terms(v)]
+    return [t]
+
+
+def enqueue_guard(fn):
+    """enqueue(): [if self.is_remote_side: raise RuntimeError]; if <guard>: raise WorkerClosedError(self); <hand (args, kwargs) to the child>.
+    The guard is classified term by term: a LIVE liveness query (`not self.is_alive()`), the closed flag (`self._closed`), the connection flag of the
+    remote kind (`self._socket_closed`), or CACHED knowledge about the child (`self._dead`, `not self._started`)."""
+    asks = closed = cached = False
+    seen_guard = False
+    for s in fn.body:
+        if is_log(s) or (isinstance(s, ast.Expr) and isinstance(s.value, ast.Constant)):
+            continue
+        if isinstance(s, ast.If) and not s.orelse and len(s.body) == 1 and isinstance(s.body[0], ast.Raise):
+            exc = s.body[0].exc
+            name = getattr(getattr(exc, 'func', None), 'id', None)
+            if name == 'RuntimeError' and self_attr(s.test, 'is_remote_side') and not seen_guard:
+                continue
+            if name == 'WorkerClosedError' and not seen_guard:
+                seen_guard = True
+                for t in guard_terms(s.test):
+                    neg = isinstance(t, ast.UnaryOp) and isinstance(t.op, ast.Not)
+                    inner = t.operand if neg else t
+                    if neg and isinstance(inner, ast.Call) and self_attr(inner.func, 'is_alive') and not inner.args:
+                        asks = True
+                    elif not neg and self_attr(inner, '_closed'):
+                        closed = True
+                    elif not neg and self_attr(inner, '_socket_closed'):
+                        pass
+                    elif (not neg and self_attr(inner, '_dead')) or (neg and self_attr(inner, '_started')):
+                        cached = True
+                    else:
+                        raise Unsupported(f'enqueue guard: term `{ast.unparse(t)}` (line {t.lineno})')
+                continue
+            raise Unsupported(f'if in enqueue (line {s.lineno})')
+        body = s.body if isinstance(s, ast.Try) and not s.finalbody and not s.orelse else [s]
+        if (seen_guard and len(body) == 1 and isinstance(body[0], ast.Expr) and isinstance(body[0].value, ast.Call)
+                and any(isinstance(a, ast.Tuple) and [getattr(e, 'id', None) for e in a.elts] == ['args', 'kwargs'] for a in body[0].value.args)):
+            continue
+        raise Unsupported(f'statement in enqueue (line {s.lineno})')
+    if not seen_guard:
+        raise Unsupported('enqueue: no guard raising WorkerClosedError')
+    b = lambda x: 'true' if x else 'false'   # noqa: E731
+    return f'mkGuard {b(asks)} {b(closed)} {b(cached)}'
+
+
 def generate(repo):
     lines = ['(* GENERATED by tools/py2coq/gen_persist.py from pyworkers/persistent_{thread,process,remote}.py - do not edit *)',
              'From Coq Require Import List.', 'Import ListNotations.', 'From PW Require Import Persist.Instr.', '']
@@ -193,6 +242,7 @@ def generate(repo):
         lines.append(f'Definition do_work_{kind} : list instr := [{"; ".join(prog)}].')
         lines.append(f'Definition send_result_{kind} : list sinstr := [{"; ".join(send_program(find_method(c, "_send_result")))}].')
         lines.append(f'Definition cleanup_{kind} : list cinstr := [{"; ".join(cleanup_program(find_method(c, "_cleanup")))}].')
+        lines.append(f'Definition enq_guard_{kind} : enq_guard := {enqueue_guard(find_method(c, "enqueue"))}.')
         lines.append('')
     return '\n'.join(lines)
 
